@@ -261,3 +261,29 @@ def annot_roundtrip(cid, x):
     c = annot_cases()[cid]
     r = c.handler(c.wrap(x), c.annotation)
     return c.unwrap(c.unhandler(r))
+
+
+# ------------------------------------------------------------------ standalone replay snippets (public API only)
+def field_replay_code(c, value, expect_accept, expect_roundtrip=False):
+    import json
+
+    j = dict(c.template)
+    j[c.wire] = value
+    return (
+        "import json\nfrom lsprotocol import converters, types\nJ = json.loads(%r)\n"
+        "def replay():\n    c = converters.get_converter(); T = types.%s\n"
+        "    try:\n        o = c.structure(J, T)\n    except Exception as e:\n        return (%r is False, 'rejected with %%s' %% type(e).__name__)\n"
+        "    if %r is False:\n        return (False, 'accepted %%r for %s.%s -> %%r' %% (J[%r], getattr(o, %r)))\n"
+        "    out = json.loads(json.dumps(c.unstructure(o, T)))\n"
+        "    if %r and out.get(%r) != J[%r]:\n        return (False, 'value changed on the round trip: %%r -> %%r' %% (J[%r], out.get(%r)))\n"
+        "    return (True, 'accepted')\n"
+    ) % (json.dumps(j), c.name, expect_accept, expect_accept, c.name, c.wire, c.wire, c.attr, expect_roundtrip, c.wire, c.wire, c.wire, c.wire)
+
+
+def run_code(code):
+    env = {}
+    exec(code, env)
+    try:
+        return env["replay"]()
+    except BaseException as e:  # noqa
+        return (False, "replay raised %s: %s" % (type(e).__name__, e))
